@@ -70,22 +70,26 @@ Definition nodeStr (inbranch : option label) (n : option node) : list Z * Z :=
 (** strings.Repeat(" ", n) *)
 Definition spaces (n : Z) : list Z := repeat 32 (Z.to_nat n).
 
-(** toStrings: the node's line, then every line of every child's subtree behind the indent *)
+(** toStrings: the node's line, then every line of every child's subtree behind the indent.
+    [ts_loop] is the  for _, b := range t.Labels(node)  loop; [rec] is the recursive call (with the remaining fuel). *)
+Fixpoint ts_loop (rec : option label -> option node -> option (list (list Z))) (n : option node) (indent : list Z)
+                 (bs : list (option label)) (rst : list (list Z)) : option (list (list Z)) :=
+  match bs with
+  | [] => Some rst
+  | b :: bs' =>
+      match rec b (t_child t n b) with
+      | Some sub => ts_loop rec n indent bs' (rst ++ map (fun s => indent ++ s) sub)
+      | None => None
+      end
+  end.
+
 Fixpoint toStrings (fuel : nat) (inbranch : option label) (n : option node) : option (list (list Z)) :=
   match fuel with
   | O => None
   | S f =>
       let '(line, ind) := nodeStr inbranch n in
       let indent := spaces ind in
-      (fix loop (bs : list (option label)) (rst : list (list Z)) : option (list (list Z)) :=
-         match bs with
-         | [] => Some rst
-         | b :: bs' =>
-             match toStrings f b (t_child t n b) with
-             | Some sub => loop bs' (rst ++ map (fun s => indent ++ s) sub)
-             | None => None
-             end
-         end) (t_labels t n) [line]
+      ts_loop (toStrings f) n indent (t_labels t n) [line]
   end.
 
 (** strings.Join(lines, "\n") *)
@@ -105,19 +109,26 @@ Definition String (fuel : nat) : option (list Z) :=
 (** depthFirst: the children in label order, then the node; returns the calls np(t, parent, label, node) *)
 Definition call : Type := (option node * option label * option node)%type.
 
+(** the  for _, b := range t.Labels(node)  loop of depthFirst; [rec] is the recursive call *)
+Fixpoint df_loop (rec : option node -> option label -> option node -> option (list call)) (n : option node)
+                 (bs : list (option label)) (acc : list call) : option (list call) :=
+  match bs with
+  | [] => Some acc
+  | b :: bs' =>
+      match rec n b (t_child t n b) with
+      | Some calls => df_loop rec n bs' (acc ++ calls)
+      | None => None
+      end
+  end.
+
 Fixpoint depthFirst (fuel : nat) (parent : option node) (lb : option label) (n : option node) : option (list call) :=
   match fuel with
   | O => None
   | S f =>
-      (fix loop (bs : list (option label)) (acc : list call) : option (list call) :=
-         match bs with
-         | [] => Some (acc ++ [(parent, lb, n)])
-         | b :: bs' =>
-             match depthFirst f n b (t_child t n b) with
-             | Some calls => loop bs' (acc ++ calls)
-             | None => None
-             end
-         end) (t_labels t n) []
+      match df_loop (depthFirst f) n (t_labels t n) [] with
+      | Some acc => Some (acc ++ [(parent, lb, n)])            (* np(t, parent, label, node) *)
+      | None => None
+      end
   end.
 
 Definition DepthFirst (fuel : nat) : option (list call) :=
